@@ -18,6 +18,9 @@ import (
 type c13HeapCase struct {
 	Phrase []string `json:"phrase"`
 	N      int      `json:"repetitions"`
+	// Open: instead of two parked handlers holding the slots, one request is opened this way (a move) and left
+	// unfinished; the phrase then keeps sending on it
+	Open string `json:"open,omitempty"`
 }
 
 // retainedByHTTP2 returns the live bytes whose allocation stack passes through a function of package http2
@@ -64,9 +67,13 @@ func retainedByHTTP2() int64 {
 func c13HeapExec(cs c13HeapCase) (retained int64, dead bool, trace []string) {
 	x := newC13()
 	defer x.h.Close()
-	// both slots are taken by requests whose handlers stay parked for the whole run
-	x.apply("request")
-	x.apply("request")
+	if cs.Open != "" {
+		x.apply(cs.Open)
+	} else {
+		// both slots are taken by requests whose handlers stay parked for the whole run
+		x.apply("request")
+		x.apply("request")
+	}
 	for i := 0; i < cs.N && !x.dead; i++ {
 		for _, mv := range cs.Phrase {
 			ok := false
@@ -93,6 +100,9 @@ var c13HeapPhrases = [][]string{
 	{"request", "ping", "settings"},            // refusals between control frames
 }
 
+// one request left open (no END_STREAM), declared in different ways, and DATA that never ends sent on it
+var c13HeapOpens = []string{"half-open", "content-length-0-open", "content-length-4-open", "content-length-over"}
+
 func runC13Heap(c *fw.Ctx) {
 	old := runtime.MemProfileRate
 	runtime.MemProfileRate = 1
@@ -102,15 +112,26 @@ func runC13Heap(c *fw.Ctx) {
 		base = 600
 	}
 	c.Bound["retained_heap_repetitions"] = []int{base, 3 * base}
-	for i, ph := range c13HeapPhrases {
+	var cases []c13HeapCase
+	for _, ph := range c13HeapPhrases {
+		cases = append(cases, c13HeapCase{Phrase: ph, N: base})
+	}
+	for _, op := range c13HeapOpens {
+		cases = append(cases, c13HeapCase{Phrase: []string{"data-over-limit"}, N: base, Open: op}, c13HeapCase{Phrase: []string{"data-over-limit", "ping"}, N: base, Open: op})
+	}
+	for i, cs := range cases {
 		if !c.Mine(int64(1)<<48 + int64(i)) {
 			continue
 		}
 		if c.Expired("C13 retained heap") {
 			break
 		}
-		a, deadA, _ := c13HeapExec(c13HeapCase{Phrase: ph, N: base})
-		b, deadB, tr := c13HeapExec(c13HeapCase{Phrase: ph, N: 3 * base})
+		ph := cs.Phrase
+		a, deadA, _ := c13HeapExec(cs)
+		b, deadB, tr := c13HeapExec(c13HeapCase{Phrase: ph, N: 3 * base, Open: cs.Open})
+		if cs.Open != "" {
+			ph = append([]string{"(" + cs.Open + ")"}, ph...)
+		}
 		js, _ := json.Marshal(ph)
 		c.Eval(nt(true, append([]byte("heap"), js...)))
 		c.AddTransitions(int64(len(tr)))
@@ -125,8 +146,8 @@ func runC13Heap(c *fw.Ctx) {
 		slack := int64(4096) + a/64
 		if b > a+slack {
 			c.Violate(fw.Violation{Rule: "state-grows-with-frames", Shape: "retained heap: " + strings.Join(ph, ","),
-				Detail: fmt.Sprintf("with both slots held, repeating %v %d times leaves %d bytes allocated by the server's own code reachable; %d times leaves %d: the connection's state grows with the number of frames the peer sends", ph, base, a, 3*base, b),
-				Replay: map[string]any{"family": "c13heap", "case": c13HeapCase{Phrase: ph, N: base}}})
+				Detail: fmt.Sprintf("with both slots held (or, with a move in brackets, one request opened that way and left unfinished), repeating %v %d times leaves %d bytes allocated by the server's own code reachable; %d times leaves %d: the connection's state grows with the number of frames the peer sends", ph, base, a, 3*base, b),
+				Replay: map[string]any{"family": "c13heap", "case": cs}})
 			c.Outcome("state-grows-with-frames")
 		} else {
 			c.Outcome("heap:bounded")
@@ -145,7 +166,7 @@ func replayC13Heap(raw json.RawMessage) (string, bool) {
 	runtime.MemProfileRate = 1
 	defer func() { runtime.MemProfileRate = old }()
 	a, _, _ := c13HeapExec(r.Case)
-	b, _, _ := c13HeapExec(c13HeapCase{Phrase: r.Case.Phrase, N: 3 * r.Case.N})
+	b, _, _ := c13HeapExec(c13HeapCase{Phrase: r.Case.Phrase, N: 3 * r.Case.N, Open: r.Case.Open})
 	if b > a+4096+a/64 {
 		return fmt.Sprintf("retained heap grows with repetitions: %d bytes after %d, %d bytes after %d", a, r.Case.N, b, 3*r.Case.N), true
 	}
